@@ -20,7 +20,16 @@ claim('C13',
       'subsets against the real parser), the documented flag table in vf/smtq.py, CrossHair/z3, the in-memory CLI environment. '
       'Bytes written for a given API result are decided under C14.',
       'z3 query over the real argparse table + CrossHair symbolic execution of do_minify/parse_args/main', 'DESIGN.md 4/C13')
-for _p in ['C02', 'C03', 'C04', 'C05', 'C06', 'C07', 'C08', 'C09', 'C10', 'C11', 'C12', 'C15']:
+claim('C15',
+      'Bounded symbolic execution of the real main()/source_modules() over an in-memory tree whose file names are symbolic '
+      'strings, with a symbolic failure position/kind and benefit pattern: the end state of every file is its original bytes '
+      'or the stub\'s minified bytes, only selected files are opened for writing, nothing after the failing file is touched. '
+      'Right level: the suffix test and the failure ordering are the whole mechanism; names like ".py", "x.pyw", "a.pyc" are '
+      'found by the solver, not sampled.',
+      'Trusted: in-memory open/os/sys stubs (vf/clienv.py; write-open truncates, read-only raises before truncating), CrossHair/z3. '
+      'do_minify is the environment here (decided under C13/C14). A crash inside f.write is outside the fault model.',
+      'CrossHair symbolic execution of main/source_modules, z3 decides each path', 'DESIGN.md 4/C15')
+for _p in ['C02', 'C03', 'C04', 'C05', 'C06', 'C07', 'C08', 'C09', 'C10', 'C11', 'C12']:
     na(_p, 'check not built yet in this revision (planned: see DESIGN.md section 4); will be claimed when its harness lands')
 na('C01', 'needs the run-time semantics of arbitrary modules (observational equivalence of two program runs); nothing a solver can '
           'encode - the mechanisms behind it are decided under C02-C09 (DESIGN.md 4/C01)')
